@@ -22,6 +22,9 @@ pub mod superminhasher2;
 pub mod invhash;
 pub mod nohasher;
 
+#[cfg(feature = "verif_hooks")]
+pub mod verif;
+
 // hashing stuff
 
 lazy_static! {
